@@ -16,6 +16,9 @@ THEOREMS = ['C16.translation_succeeds', 'C16.translation_accepted', 'C16.layout_
             'C16.spec_coherent_of_shape', 'C16.in_fragment_of_shape', 'C16.converter_text_is_the_model_of_shape',
             'C16.translation_text_is_the_model_of_shape', 'C16.fragment_shape_example', 'C16.notation_example',
             'C16.notation_axiom_is_body_image', 'C16.image_without_notations',
+            # `#Notation` statements in the specification dbOfMDb / the shape FragmentShape (Pi2/MM/ConvSpec, ConvShape, ConvSugar)
+            'C16.spec_without_notations', 'C16.core_shape_of_sugarFree', 'C16.fragment_shape_of_core_shape', 'C16.sugarFree_of_spec_core', 'C16.fragment_shape_notation_example',
+            'C16.spec_notation_example', 'C16.forward_notation_not_in_shape', 'C16.ExampleCanon.dbN_shape', 'C16.ExampleCanon.dbN_check',
             # accepted by the checker TEXT (Props/C16b.lean): bytes of the translated serializer methods for the translation's calls are
             # accepted by the translated lib.rs verify, the target's image is valid; from the text side for FragmentShape databases
             'C16.translation_bytes_accepted_by_rust_text', 'C16.accepted_translation_bytes', 'C16.translation_u8_accepted',
@@ -439,9 +442,11 @@ def run(rep):
     # knowledge; generated converter (Pi2/Gen/MMConv.lean) vs the real MetamathConverter on every query; hypotheses FragmentShape
     # (of the ..._of_shape theorems) and InFragmentX evaluated on every generated database
     from .. import try_conv
-    cf, n_spec, n_conv = try_conv.compare(cases, try_conv.EXTRA)
+    cf, n_spec, n_conv = try_conv.compare(cases + ncases, try_conv.EXTRA)
     findings += cf
-    rep.coverage.update({'converter_spec_comparisons': n_spec, 'converter_text_comparisons': n_conv})
+    rep.coverage.update({'converter_spec_comparisons': n_spec, 'converter_spec_comparisons_with_declared_notations': 2 * len(ncases),
+                         'converter_text_comparisons': n_conv - try_conv.OUTSIDE_NOTATION[0],
+                         'generated_converter_outside_on_notation_databases': try_conv.OUTSIDE_NOTATION[0]})
     rep.coverage.update({
         'evaluations': len(lines) * len(seeds) + len(muts) + n_bench + n_chain, 'distinct_nontrivial': len(set(lines)) + len(muts),
         'rule': 'random databases in fragment F0 (constants, n-ary constructors, \\imp, \\app, axioms, rules with essential hypotheses, '
@@ -467,8 +472,11 @@ def run(rep):
     rep.assumptions += ['the THEOREMS are about fragment F0 of DESIGN.md extended with declared #Notation sugar (DB.wf: a notation symbol has one constructor axiom, '
                         'its body mentions its own variables and, of the notation symbols, earlier ones only; no #Substitution, no $d); databases with declared '
                         'notations (vlib/mmgen3.py) go through the same Lean model (mmverify / mmxlate, byte for byte) as the notation-free ones AND through the '
-                        'independent structural image (notations expanded at the term level) + checker + layouts; the text ties (exec_proof_*, converter_*, '
-                        'translation_text_*) relate the source text to the model on notation-free databases (dbOfMDb produces no notations); '
+                        'independent structural image (notations expanded at the term level) + checker + layouts; the specification dbOfMDb and the shape '
+                        'FragmentShape cover #Notation statements (section 6: dbOfMDb on the parsed database = the check\'s model database incl. bodies, '
+                        'FragmentShape true, wf true on every generated notation database); the text ties (converter_*, translation_text_*) relate the source '
+                        'text to the model on databases WITHOUT #Notation statements (hypothesis sugarFree / InFragment): MetamathConverter._add_notation '
+                        'is outside the translated fragment of vlib/transconv.py, the generated converter answers (outside) on notation databases; '
                         'targets citing an earlier $p are unsupported by the translator',
                         'observed on the real converter, outside DB.wf: a notation body that mentions a notation declared LATER keeps that symbol as a plain '
                         'symbol application (the closure is built when only the earlier notations are in scope) — the Lean model does the same (DB.notTab), '
